@@ -50,6 +50,18 @@ theorem payload_complete : ∀ c ∈ commands, ∀ d ∈ c.decls, covered c d = 
 /-- the same as a list: nothing is uncovered -/
 theorem payload_complete_list : commands.flatMap uncovered = [] := by decide
 
+/-- **Every payload value is written into the key in a form that determines it** (generated
+table): a dereferenced command-line variable, a `String()` text, a digest, the file type, … — never
+a parsed value marshalled by its structure (`Joined` / `Ordered`, `Point` / `Between` would share
+a key: seeded change C14-f). -/
+theorem payload_value_forms : valueFormReport = [] := by decide
+
+/-- **No payload variable is re-ordered or overwritten in place** anywhere in its command
+(generated table: no use of a declared variable that reaches the payload sits in `sort.*`, `copy`,
+…): the key describes what the command line said (seeded change C14-e: sorting the locators of
+`gts extract` for the key while the output keeps their order). -/
+theorem payload_vars_not_mutated : mutatedReport = [] := by decide
+
 /-- **The key of a secondary input is the digest of its RAW content** (generated table): the
 payload variables bound to `h.Sum(nil)` are exactly `featsum`, `hostSum`, `guestSum`, `querySum`;
 each is read by a payload tuple; everything written into the hash between the preceding
